@@ -41,6 +41,27 @@ DESC = {
  "M-C18-2": ("tail differences combined with `^=` instead of `|=` in `is_equal_raw`", "len = 3 mod 4, two tail bytes differing by the same delta"),
  "M-C19-1": ("`.skip(2).take(255)` in `Pair::with_ranker`", "needle >= 256 bytes with a rare byte at offset 255/256"),
  "M-C19-2": ("`with_indices` length guard in saturating `u8`", "needle >= 256 bytes and an offset equal to 255"),
+ "M-C01-3": ("literal `32` instead of `2 * V::BYTES` in the unrolled loop of `One::find_raw`", "AVX2, first match in the third vector of an aligned 128-byte block"),
+ "M-C02-3": ("same-needle fast path of top-level `memrchr2_raw` calls the forward routine", "both needles equal, haystack >= 128 bytes, >= 2 occurrences"),
+ "M-C03-3": ("`pos + needle.len() >= haystack.len()` after the prefilter jump in `find_small_imp`", "periodic needle > 32, only occurrence flush with the haystack end, prefilter active"),
+ "M-C04-3": ("forward periodicity test copied into `Shift::reverse`", "periodic needle whose length is not a multiple of the period, near-match at the right end"),
+ "M-C05-3": ("`len < USIZE_ALIGN` instead of `USIZE_BYTES` in SWAR `Three::rfind_raw`", "fallback three-needle reverse search over exactly 7 bytes (reads 1 byte before the slice)"),
+ "M-C06-3": ("`cur >= start.add(LOOP_SIZE - 1)` in `One::rfind_raw`", "`next()` consumed a match on a vector boundary, then `next_back()` with the right remaining length"),
+ "M-C07-3": ("vector head with the wrong overlap mask in `One::count_raw`", "count on a window starting at a misalignment other than 0 or half a vector"),
+ "M-C08-3": ("`shift = period` instead of `needle.len() - period` in `find_small_imp`", "needle > 32 with len/2 < period < len, prefilter already inert (iterator history)"),
+ "M-C08-3a": ("`find_simple` with `checked_sub` (fails the crate's own quickcheck tests in ~half of the runs: extra, not a confirmed mutant)", "needle > 32, rare bytes in the last 15 bytes, short iterator remainder"),
+ "M-C09-3": ("`Prefilter::sse2` caches `needle[index2]` as the rarest byte", "SSE2-served build, needle > 32, rarest byte before the second rarest, remainder shorter than 16+index2"),
+ "M-C10-3": ("`.skip(2).take(255)` in `Pair::with_ranker` (reaches index 256)", "needle >= 257 bytes whose byte 256 is rarer (ranker dependent): construction panics"),
+ "M-C11-3": ("portable `Finder::with_pair` swaps the cached bytes by default rank, not the offsets", "caller-chosen pair with the commoner byte at `index1`"),
+ "M-C12-3": ("`period_lower_bound * 2 > needle.len()` chooses the large shift", "needle w w' with len/2 < period < len - crit; occurrence one period after a right-part match"),
+ "M-C13-3": ("`Suffix::reverse` Push arm never resets the candidate", "reverse finder, needle thousands of bytes: long periodic run broken at its left end (quadratic preprocessing)"),
+ "M-C14-3": ("`FindIter::size_hint` with an unchecked subtraction", "empty needle, drained forward iterator, then `size_hint()`"),
+ "M-C14-3a": ("`find_simple` with an unchecked subtraction (fails the crate's own quickcheck tests in ~40% of the runs: extra, not a confirmed mutant)", "needle > 32, rare byte before its needle offset in a short window"),
+ "M-C15-3": ("losers of the detection race call the 128-bit generic routine directly", "threads racing the first call with a haystack shorter than 16 bytes"),
+ "M-C16-3": ("pointer-equality shortcut in Rabin-Karp `FinderRev::rfind_raw`", "needle BORROWED from the front of the searched buffer, reverse search of < 16 bytes with a later occurrence"),
+ "M-C17-3": ("`repeat()` (allocates) in `Shift::forward` under `feature = \"alloc\"`", "needle > 32, critical position early, irregular head longer than the period of the tail"),
+ "M-C18-3": ("`is_suffix` delegates to `starts_with` for needles > 64 bytes", "suffix needle >= 65 bytes, longer haystack whose head and tail differ"),
+ "M-C19-3": ("portable `Finder::with_pair` reorders a descending pair with equal bytes", "`with_pair` with index1 > index2 holding the same byte, then `pair()`"),
 }
 rows = []
 for mid in sorted(os.listdir(os.path.join(ROOT, "seeded"))):
